@@ -73,6 +73,18 @@ func (c *Component) Dispatch(pkt *dataplane.ParsedPacket) error {
 	// before processing the message. Without this the send window stays
 	// closed and outbound replies (SCCCN, ICCN, …) sit in the queue
 	// behind the now-acknowledged previous send.
+	//
+	// A ZLB (no AVPs) is a pure acknowledgement: only its Nr is
+	// processed. It must not go through Recv — its Ns is the peer's
+	// *next* send sequence (RFC 2661 §5.8), so Recv would accept it as
+	// an in-order message, advance Nr, and then discard the peer's next
+	// real message as a duplicate while still acknowledging it.
+	if len(avps) == 0 {
+		if t.Channel != nil {
+			t.Channel.RecvZLB(h.Nr, time.Now())
+		}
+		return nil
+	}
 	if t.Channel != nil {
 		accept, err := t.Channel.Recv(h.Ns, h.Nr, time.Now())
 		if err != nil {
@@ -82,11 +94,6 @@ func (c *Component) Dispatch(pkt *dataplane.ParsedPacket) error {
 			// Duplicate or out-of-window — channel has already ACKed.
 			return nil
 		}
-	}
-
-	// ZLB (no AVPs): pure ack already consumed by Recv above.
-	if len(avps) == 0 {
-		return nil
 	}
 
 	switch msgType {
